@@ -215,7 +215,7 @@ def run_property(a, seed, run_contracts):
 
     # (2) ledger obligations
     proved_now = {cid for cid, c in clauses.items() if c['paths'] > 0 and c['proved'] == c['paths']
-                  and not c.get('contract_errors')}
+                  and not c.get('contract_errors') and not c.get('bounded')}
     obligations = 0
     discharged = 0
     per_clause = []
@@ -294,7 +294,7 @@ def run_property(a, seed, run_contracts):
                 elif prev.get('known_finding'):
                     e['known_finding'] = prev['known_finding']
             elif c.get('bounded'):
-                e = {'expect': 'bounded'}
+                e = {'expect': 'bounded'}       # run-time stand-in: listed, never counted as discharged
             else:
                 e = {'expect': prev.get('expect') if prev.get('expect') == 'known-fail' else 'UNPROVED'}
             e['function'] = ';'.join(vc.CONTRACTS[c['contract']].functions[:3])
